@@ -185,6 +185,10 @@ func registerSym(e *Engine) {
 		return nil
 	}
 	s["FreeRun"] = func(p *Path, th *Thread, fr *frame, a []Value) Value { return nil }
+	s["Ghost"] = func(p *Path, th *Thread, fr *frame, a []Value) Value {
+		p.call(th, fr, a[0], nil)
+		return nil
+	}
 	s["NoBlock"] = func(p *Path, th *Thread, fr *frame, a []Value) Value {
 		p.call(th, fr, a[0], nil)
 		return nil
